@@ -17,14 +17,28 @@ package main
 //                    disconnect, connect to another upstream) — all attempts are made
 //              list  one Upstreams{all upstreams}.Connect — the real fail-over walk; attempts
 //                    after the first established one are not made (`skip`)
-//     attempt  <carrier>,<host>,<scert>
+//              seqn  as seq, but every attempt is made through a cert.ClientConfig OBJECT OF ITS OWN
+//                    (several configuration objects in one process)
+//     attempt  <carrier>,<host>,<scert>[,<variation>[/<variation>…]]
+//              variation (seq / seqn only) — the client configuration IN FORCE FOR THIS ATTEMPT differs from the
+//              history's: c<CA> (A | B | -), k<client certificate class>, i<0|1> (insecure option).  In `seq` the one
+//              configuration object is changed IN PLACE between the attempts (fields reassigned; when a history
+//              changes the CA, the CA is given as a FILE whose content is replaced on disk), in `seqn` the
+//              attempt's own object is built with these options.
+//              r   = the server behind this attempt is started anew for it, on the port of the carrier's
+//                    last server (every running server of the carrier is shut down first): new listener, new
+//                    session-ticket keys, possibly another certificate on the same port
+//              v12 = the handshake of this attempt is capped at TLS 1.2 (the recorder sets MaxVersion on the
+//                    object it hands on; nothing in the configuration selects a version)
 //              carrier  pipe | tcp | tcp+tls | stdin+tls | wss      (as in authmatrix)
 //              scert    dead (peer accepts the carrier and hangs up) | good | nameonly | iponly |
 //                       wronghost | untrusted | expired | exp1m | exp1s | notyet | fresh | sys (c05_pki.go;
 //                       sys = issued by CA S, the system trust store of the harness process)
 //   client options (one cert.ClientConfig for the whole history) and server options as in authmatrix;
 //   attempts of one history that address the same carrier+certificate share ONE server, i.e. one
-//   cert.ServerConfig sees several handshakes.
+//   cert.ServerConfig sees several handshakes — and, for the TLS-socket and https carriers, ONE listener with one
+//   set of session-ticket keys (Go servers issue tickets by default), so that anything the client side remembers
+//   of an earlier connection (session cache, "already verified" sets) is usable on the next attempt.
 //
 // result: per attempt `<est|ref|skip>:<ServerName on the config the attempt handed to crypto/tls,
 //   hex, - = empty, none = no config was asked for>:<its InsecureSkipVerify>`
@@ -44,6 +58,7 @@ import (
 	"os"
 	"strings"
 	"sync"
+	"sync/atomic"
 	"time"
 
 	"github.com/bokysan/socketace/v2/internal/client/upstream"
@@ -54,7 +69,43 @@ import (
 	"github.com/bokysan/socketace/v2/internal/util/cert"
 )
 
-type c05HAttempt struct{ carrier, host, scert string }
+type c05HAttempt struct {
+	carrier, host, scert string
+	vari                 c05Vari
+}
+
+// c05Vari: per-attempt variation (4th field of an attempt token)
+type c05Vari struct {
+	cca, ccert string // "" = as the history
+	ins        int    // -1 = as the history
+	restart    bool
+	v12        bool
+	any        bool
+}
+
+func parseC05Vari(field string) (c05Vari, bool) {
+	v := c05Vari{ins: -1}
+	for _, tok := range strings.Split(field, "/") {
+		switch {
+		case tok == "r":
+			v.restart = true
+		case tok == "v12":
+			v.v12 = true
+		case tok == "i0":
+			v.ins = 0
+		case tok == "i1":
+			v.ins = 1
+		case strings.HasPrefix(tok, "c") && c05in(c05CaTokens, tok[1:]):
+			v.cca = tok[1:]
+		case strings.HasPrefix(tok, "k") && c05in(c05CCerts, tok[1:]):
+			v.ccert = tok[1:]
+		default:
+			return v, false
+		}
+		v.any = true
+	}
+	return v, true
+}
 
 type c05Hist struct {
 	mode       string
@@ -73,15 +124,22 @@ var (
 func parseC05Hist(op string) (c05Hist, bool) {
 	t := strings.Fields(op)
 	var h c05Hist
-	if len(t) < 7 || len(t) > 12 || !c05in([]string{"seq", "list"}, t[0]) || !c05in([]string{"0", "1"}, t[1]) ||
+	if len(t) < 7 || len(t) > 12 || !c05in([]string{"seq", "seqn", "list"}, t[0]) || !c05in([]string{"0", "1"}, t[1]) ||
 		!c05in(c05CaTokens, t[2]) || !c05in(c05CCerts, t[3]) || !c05in([]string{"0", "1"}, t[4]) || !c05in(c05CaTokens, t[5]) {
 		return h, false
 	}
 	h = c05Hist{mode: t[0], insecure: t[1] == "1", cca: t[2], ccert: t[3], sreq: t[4] == "1", sca: t[5]}
 	for _, a := range t[6:] {
 		f := strings.Split(a, ",")
-		if len(f) != 3 || !c05in(c05HCarriers, f[0]) || !c05in(c05HSCerts, f[2]) {
+		if (len(f) != 3 && len(f) != 4) || !c05in(c05HCarriers, f[0]) || !c05in(c05HSCerts, f[2]) {
 			return h, false
+		}
+		vari := c05Vari{ins: -1}
+		if len(f) == 4 {
+			var okv bool
+			if vari, okv = parseC05Vari(f[3]); !okv || h.mode == "list" {
+				return h, false
+			}
 		}
 		if part, special, ok := c05HostTok(f[1]); !ok {
 			return h, false
@@ -90,7 +148,7 @@ func parseC05Hist(op string) (c05Hist, bool) {
 			if _, okURL := c05PassedHost(part, "4443"); !okURL || f[0] == "stdin+tls" || (f[0] != "pipe" && c05BindHost(part) == "[::1]") {
 				return h, false
 			}
-			h.atts = append(h.atts, c05HAttempt{f[0], f[1], f[2]})
+			h.atts = append(h.atts, c05HAttempt{f[0], f[1], f[2], vari})
 			continue
 		}
 		switch f[0] {
@@ -107,18 +165,45 @@ func parseC05Hist(op string) (c05Hist, bool) {
 				return h, false
 			}
 		}
-		h.atts = append(h.atts, c05HAttempt{f[0], f[1], f[2]})
+		h.atts = append(h.atts, c05HAttempt{f[0], f[1], f[2], vari})
 	}
 	return h, true
 }
 
-func (h c05Hist) serverAcceptable(a c05HAttempt) bool {
+// eff: the client configuration in force for attempt i
+func (h c05Hist) eff(i int) (insecure bool, cca, ccert string) {
+	insecure, cca, ccert = h.insecure, h.cca, h.ccert
+	v := h.atts[i].vari
+	if v.ins >= 0 {
+		insecure = v.ins == 1
+	}
+	if v.cca != "" {
+		cca = v.cca
+	}
+	if v.ccert != "" {
+		ccert = v.ccert
+	}
+	return
+}
+
+func (h c05Hist) caVaries() bool {
+	for _, a := range h.atts {
+		if a.vari.cca != "" {
+			return true
+		}
+	}
+	return false
+}
+
+func (h c05Hist) serverAcceptable(i int) bool {
+	a := h.atts[i]
 	if a.scert == "dead" {
 		return false
 	}
+	_, cca, _ := h.eff(i)
 	signer, names, expired := c05ServerCertAttrs(a.scert)
 	part, _, _ := c05HostTok(a.host)
-	return c05in(c05Anchors(h.cca), signer) && !expired && c05HostAcceptable(names, part)
+	return c05in(c05Anchors(cca), signer) && !expired && c05HostAcceptable(names, part)
 }
 
 // authority of the attempt's upstream URL / the host string a pipe upstream passes
@@ -133,18 +218,25 @@ func (a c05HAttempt) passed() string {
 	return h
 }
 
-func (h c05Hist) clientAcceptable() bool { return c05ClientCertAcceptable(h.ccert, h.sca) }
+func (h c05Hist) clientAcceptable(i int) bool {
+	_, _, ccert := h.eff(i)
+	return c05ClientCertAcceptable(ccert, h.sca)
+}
 
 // ---- the recording manager: the real cert.ClientConfig, plus a log of what it handed out ----
 
 type c05RecMgr struct {
-	inner *cert.ClientConfig
-	mu    sync.Mutex
-	calls []*tls.Config // nil entry = GetTlsConfig returned an error
+	inner  *cert.ClientConfig
+	maxVer uint16 // != 0: cap the protocol version of the objects handed on (variation v12)
+	mu     sync.Mutex
+	calls  []*tls.Config // nil entry = GetTlsConfig returned an error
 }
 
 func (m *c05RecMgr) GetTlsConfig() (*tls.Config, error) {
 	c, err := m.inner.GetTlsConfig()
+	if err == nil && c != nil && m.maxVer != 0 {
+		c.MaxVersion = m.maxVer
+	}
 	m.mu.Lock()
 	if err != nil {
 		m.calls = append(m.calls, nil)
@@ -228,9 +320,40 @@ type c05HServers struct {
 	h        c05Hist
 	channels server.Channels
 	ports    map[string]string              // carrier/scert -> port of the shared real server
+	stops    map[string]func()              // carrier/scert -> shuts that server down (idempotent)
+	lastPort map[string]string              // carrier -> port of the carrier's most recently started server
 	pipeCfg  map[string]*cert.ServerConfig  // scert -> shared config of the pipe carrier
 	deadPort string
 	closers  []func()
+}
+
+// restart (variation r): every running server of the carrier is shut down; the next one takes over the port of the
+// carrier's last server (new listener, new tls.Config, new session-ticket keys - maybe another certificate)
+func (s *c05HServers) restart(carrier string) (wantPort string) {
+	switch carrier {
+	case "pipe":
+		s.pipeCfg = map[string]*cert.ServerConfig{}
+		return ""
+	case "stdin+tls":
+		return "" // a new server per attempt anyway
+	}
+	for key, stop := range s.stops {
+		if strings.HasPrefix(key, carrier+"/") {
+			stop()
+			delete(s.stops, key)
+			delete(s.ports, key)
+		}
+	}
+	return s.lastPort[carrier]
+}
+
+func (s *c05HServers) started(carrier, key, port string, stop func()) {
+	var once sync.Once
+	f := func() { once.Do(stop) }
+	s.ports[key] = port
+	s.stops[key] = f
+	s.lastPort[carrier] = port
+	s.closers = append(s.closers, f)
 }
 
 func (s *c05HServers) srvCfg(scert string) cert.ServerConfig {
@@ -272,6 +395,10 @@ func (s *c05HServers) dead() (string, error) {
 
 func (s *c05HServers) upstreamFor(a c05HAttempt) (upstream.Upstream, error) {
 	key := a.carrier + "/" + a.scert
+	wantPort := ""
+	if a.vari.restart {
+		wantPort = s.restart(a.carrier)
+	}
 	switch a.carrier {
 	case "pipe":
 		if a.scert == "dead" {
@@ -292,16 +419,30 @@ func (s *c05HServers) upstreamFor(a c05HAttempt) (upstream.Upstream, error) {
 				return nil, err
 			}
 		} else if port == "" {
-			st := server.NewSocketServer()
-			st.ServerConfig = s.srvCfg(a.scert)
-			su, _ := url.Parse(a.carrier + "://127.0.0.1:0")
-			st.Address = addr.ProtoAddress{URL: *su}
-			if err := st.Startup(s.channels); err != nil {
-				return nil, err
+			bind := "0"
+			if wantPort != "" {
+				bind = wantPort
 			}
-			s.closers = append(s.closers, func() { _ = st.Shutdown() })
+			var st *server.SocketServer
+			for try := 0; ; try++ {
+				st = server.NewSocketServer()
+				st.ServerConfig = s.srvCfg(a.scert)
+				su, _ := url.Parse(a.carrier + "://127.0.0.1:" + bind)
+				st.Address = addr.ProtoAddress{URL: *su}
+				err := st.Startup(s.channels)
+				if err == nil {
+					break
+				}
+				if wantPort == "" {
+					return nil, err
+				}
+				if try >= 40 { // the port of the server just shut down did not come free (or somebody else took it)
+					return nil, errC05Retry
+				}
+				time.Sleep(50 * time.Millisecond)
+			}
 			_, port, _ = net.SplitHostPort(st.VerifC05ListenerAddr().String())
-			s.ports[key] = port
+			s.started(a.carrier, key, port, func() { _ = st.Shutdown() })
 		}
 		cu, _ := url.Parse(a.carrier + "://" + a.authority(port))
 		return &upstream.Socket{Address: addr.ProtoAddress{URL: *cu}}, nil
@@ -313,12 +454,16 @@ func (s *c05HServers) upstreamFor(a c05HAttempt) (upstream.Upstream, error) {
 				return nil, err
 			}
 		} else if port == "" {
-			probe, err := net.Listen("tcp", "127.0.0.1:0")
-			if err != nil {
-				return nil, err
+			if wantPort != "" {
+				port = wantPort
+			} else {
+				probe, err := net.Listen("tcp", "127.0.0.1:0")
+				if err != nil {
+					return nil, err
+				}
+				_, port, _ = net.SplitHostPort(probe.Addr().String())
+				_ = probe.Close()
 			}
-			_, port, _ = net.SplitHostPort(probe.Addr().String())
-			_ = probe.Close()
 			hs := server.NewHttpServer()
 			hs.ServerConfig = s.srvCfg(a.scert)
 			su, _ := url.Parse("https://127.0.0.1:" + port)
@@ -327,8 +472,7 @@ func (s *c05HServers) upstreamFor(a c05HAttempt) (upstream.Upstream, error) {
 			if err := hs.Startup(s.channels); err != nil {
 				return nil, errC05Retry
 			}
-			s.closers = append(s.closers, func() { _ = hs.Shutdown() })
-			s.ports[key] = port
+			s.started(a.carrier, key, port, func() { _ = hs.Shutdown() })
 		}
 		cu, _ := url.Parse("wss://" + a.authority(port) + "/ws")
 		return &upstream.Http{Address: addr.ProtoAddress{URL: *cu}}, nil
@@ -354,6 +498,8 @@ func (s *c05HServers) upstreamFor(a c05HAttempt) (upstream.Upstream, error) {
 }
 
 var errC05Retry = fmt.Errorf("retry")
+
+var c05HistSeq atomic.Int64
 
 // c05Echo opens the echo channel through the list and sends 16 application bytes round trip
 func c05Echo(list *upstream.Upstreams, getter cert.ConfigGetter) (bool, string) {
@@ -404,42 +550,97 @@ func (tlshistComp) exec1(op string, deadline time.Duration) (string, string, str
 	p := getC05PKI()
 	sink := getC05Sink()
 
-	cliCfg := &cert.ClientConfig{InsecureSkipVerify: h.insecure}
-	c05SetCa(&cliCfg.Config, h.cca)
-	if h.ccert != "none" {
-		cleaf := p.clientLeaf(h.ccert)
-		cliCfg.Certificate = cleaf.certPEM
-		cliCfg.PrivateKey = cleaf.keyPEM
+	// the client configuration: ONE object (and one recording manager) for the whole history in `seq` / `list`;
+	// in `seqn` every attempt gets an object of its own
+	caFile := ""
+	if h.caVaries() && h.mode == "seq" {
+		caFile = p.file(fmt.Sprintf("hist-ca-%d-%d.pem", os.Getpid(), c05HistSeq.Add(1)))
+		defer os.Remove(caFile)
 	}
-	mgr := &c05RecMgr{inner: cliCfg} // ONE manager for the whole history
+	apply := func(cfg *cert.ClientConfig, i int) {
+		ins, cca, ccert := h.eff(i)
+		cfg.InsecureSkipVerify = ins
+		cfg.Certificate, cfg.PrivateKey = "", ""
+		if ccert != "none" {
+			cleaf := p.clientLeaf(ccert)
+			cfg.Certificate, cfg.PrivateKey = cleaf.certPEM, cleaf.keyPEM
+		}
+		cfg.CaCertificate, cfg.CaCertificateFile = "", ""
+		if caFile == "" {
+			c05SetCa(&cfg.Config, cca)
+		} else if cca == "A" || cca == "B" {
+			// the CA file is replaced on disk; the configuration keeps naming the same path
+			_ = os.WriteFile(caFile, []byte(p.caPEM[cca]), 0o600)
+			cfg.CaCertificateFile = caFile
+		}
+	}
+	same := func(i, j int) bool {
+		a1, a2, a3 := h.eff(i)
+		b1, b2, b3 := h.eff(j)
+		return a1 == b1 && a2 == b2 && a3 == b3
+	}
+	cliCfg := &cert.ClientConfig{}
+	apply(cliCfg, 0)
+	mgr := &c05RecMgr{inner: cliCfg}
 
 	sinkURL, _ := url.Parse("tcp://" + sink.ln.Addr().String())
 	echo := &server.NetworkChannel{}
 	echo.ProtoName.Name = "echo"
 	echo.Address = addr.ProtoAddress{URL: *sinkURL}
-	srv := &c05HServers{h: h, channels: server.Channels{echo}, ports: map[string]string{}, pipeCfg: map[string]*cert.ServerConfig{}}
+	srv := &c05HServers{h: h, channels: server.Channels{echo}, ports: map[string]string{}, stops: map[string]func(){},
+		lastPort: map[string]string{}, pipeCfg: map[string]*cert.ServerConfig{}}
 	defer srv.close()
 
 	recs := make([]c05HRec, len(h.atts))
 	ups := make([]upstream.Upstream, len(h.atts))
-	for i, a := range h.atts {
-		u, err := srv.upstreamFor(a)
-		if err == errC05Retry {
-			return "timeout", "", "startup-error", false
+	if h.mode == "list" {
+		for i, a := range h.atts {
+			u, err := srv.upstreamFor(a)
+			if err == errC05Retry {
+				return "timeout", "", "startup-error", false
+			}
+			if err != nil {
+				return "err server-startup", "", "startup-error", false
+			}
+			ups[i] = &c05HistUps{Upstream: u, mgr: mgr, rec: &recs[i]}
 		}
-		if err != nil {
-			return "err server-startup", "", "startup-error", false
-		}
-		ups[i] = &c05HistUps{Upstream: u, mgr: mgr, rec: &recs[i]}
 	}
 
-	done := make(chan struct{})
+	done := make(chan string, 1)
+	var abandoned atomic.Bool
 	go func() {
-		defer close(done)
-		if h.mode == "seq" {
-			for i := range ups {
+		if h.mode != "list" {
+			// connect, disconnect, connect: the server behind an attempt is brought up when the attempt is due
+			// (an attempt with `r` replaces the carrier's running servers), the configuration in force for the
+			// attempt is put in place just before it
+			for i, a := range h.atts {
+				if abandoned.Load() {
+					return
+				}
+				m := mgr
+				if h.mode == "seqn" {
+					own := &cert.ClientConfig{}
+					apply(own, i)
+					m = &c05RecMgr{inner: own}
+				} else if i > 0 && !same(i, i-1) {
+					apply(cliCfg, i) // the same object, changed in place
+				}
+				m.maxVer = 0
+				if a.vari.v12 {
+					m.maxVer = tls.VersionTLS12
+				}
+				u, err := srv.upstreamFor(a)
+				if err == errC05Retry {
+					done <- "timeout"
+					return
+				}
+				if err != nil {
+					done <- "err server-startup"
+					return
+				}
+				ups[i] = &c05HistUps{Upstream: u, mgr: m, rec: &recs[i]}
 				list := &upstream.Upstreams{Data: []upstream.Upstream{ups[i]}}
-				ok, why := c05Echo(list, mgr)
+				ok, why := c05Echo(list, m)
 				recs[i].est, recs[i].why = ok, why
 				list.Shutdown()
 			}
@@ -455,10 +656,18 @@ func (tlshistComp) exec1(op string, deadline time.Duration) (string, string, str
 			}
 			list.Shutdown()
 		}
+		done <- ""
 	}()
 	select {
-	case <-done:
+	case st := <-done:
+		if st == "timeout" {
+			return "timeout", "", "startup-error", false
+		}
+		if st != "" {
+			return st, "", "startup-error", false
+		}
 	case <-time.After(deadline):
+		abandoned.Store(true)
 		return "timeout", "a history neither completed nor failed within the deadline (4 runs)", "timeout", false
 	}
 
@@ -498,31 +707,39 @@ func (tlshistComp) exec1(op string, deadline time.Duration) (string, string, str
 			earlierEst = true
 		}
 		out = append(out, fmt.Sprintf("%s:%s:%d", st, name, b2i(r.isv)))
-		cls = append(cls, a.carrier+"/"+map[bool]string{true: "dead", false: "up"}[a.scert == "dead"]+"/"+st)
+		vs := ""
+		if a.vari.cca != "" || a.vari.ccert != "" || a.vari.ins >= 0 {
+			vs += "~cfg" // made under a client configuration that differs from the history's
+		}
+		if a.vari.restart {
+			vs += "~r"
+		}
+		cls = append(cls, a.carrier+"/"+map[bool]string{true: "dead", false: "up"}[a.scert == "dead"]+"/"+st+vs)
 		stdio := a.carrier == "stdin+tls"
+		insecure, cca, ccert := h.eff(i)
 		switch {
-		case r.est && !h.insecure && !stdio && !h.serverAcceptable(a):
+		case r.est && !insecure && !stdio && !h.serverAcceptable(i):
 			signer, _, _ := c05ServerCertAttrs(a.scert)
 			note := ""
-			if !c05in(c05Anchors(h.cca), signer) {
-				note = c05AnchorNote("client", h.cca, signer)
+			if !c05in(c05Anchors(cca), signer) {
+				note = c05AnchorNote("client", cca, signer)
 			}
-			mons = append(mons, tag+": client completed a verified session with a server whose certificate is not acceptable for this upstream's host name"+note)
-		case r.est && h.sreq && !h.clientAcceptable():
+			mons = append(mons, tag+": client completed a verified session with a server whose certificate is not acceptable for this upstream's host name"+note+h.earlier(i, recs))
+		case r.est && h.sreq && !h.clientAcceptable(i):
 			note := ""
-			if !c05in(c05Anchors(h.sca), c05ClientCertSigner(h.ccert)) {
-				note = c05AnchorNote("server", h.sca, c05ClientCertSigner(h.ccert))
+			if !c05in(c05Anchors(h.sca), c05ClientCertSigner(ccert)) {
+				note = c05AnchorNote("server", h.sca, c05ClientCertSigner(ccert))
 			}
-			mons = append(mons, tag+": server requiring client certificates admitted a client without an acceptable certificate"+note)
-		case !r.est && h.serverAcceptable(a) && (!h.sreq || h.clientAcceptable()):
-			mons = append(mons, tag+": client did not complete the session with a reachable, correctly certified server")
+			mons = append(mons, tag+": server requiring client certificates admitted a client without an acceptable certificate"+note+h.earlier(i, recs))
+		case !r.est && h.serverAcceptable(i) && (!h.sreq || h.clientAcceptable(i)):
+			mons = append(mons, tag+": client did not complete the session with a reachable, correctly certified server"+h.earlier(i, recs))
 		}
 		// what went wrong in the configuration is reported as the explanation of a failed attempt
 		// only; a deviation that changes no outcome shows as a model/code disagreement on the
 		// result line (name and flag are part of it)
 		if n := len(mons); n > 0 && strings.HasPrefix(mons[n-1], tag) && r.hasCfg {
-			if !stdio && r.isv != h.insecure {
-				mons[n-1] += fmt.Sprintf(" [InsecureSkipVerify=%v was handed to crypto/tls, the insecure option is %v]", r.isv, h.insecure)
+			if !stdio && r.isv != insecure {
+				mons[n-1] += fmt.Sprintf(" [InsecureSkipVerify=%v was handed to crypto/tls, the insecure option is %v]", r.isv, insecure)
 			}
 			if (a.carrier == "pipe" || a.carrier == "tcp" || a.carrier == "tcp+tls") && r.name != a.host && !strings.HasPrefix(a.host, "=") {
 				mons[n-1] += fmt.Sprintf(" [ServerName %q was handed to crypto/tls]", r.name)
@@ -531,6 +748,34 @@ func (tlshistComp) exec1(op string, deadline time.Duration) (string, string, str
 	}
 	class := h.mode + ":" + strings.Join(cls, ">")
 	return strings.Join(out, " "), strings.Join(mons, "; "), class, anyEst
+}
+
+// earlier: for the reason of a failed attempt of a history whose configuration changes between attempts - which
+// earlier attempts reached the same endpoint, and under which client configuration (explanation only)
+func (h c05Hist) earlier(i int, recs []c05HRec) string {
+	var notes []string
+	ins, cca, ccert := h.eff(i)
+	for j := 0; j < i; j++ {
+		if h.atts[j].carrier != h.atts[i].carrier || h.atts[j].host != h.atts[i].host || !recs[j].tried {
+			continue
+		}
+		jins, jcca, jccert := h.eff(j)
+		if jins == ins && jcca == cca && jccert == ccert && h.atts[j].scert == h.atts[i].scert {
+			continue
+		}
+		st := "refused"
+		if recs[j].est {
+			st = "established"
+		}
+		notes = append(notes, fmt.Sprintf("attempt %d to the same endpoint (server certificate %s) was %s under client CA %s, client certificate %s, insecure=%v",
+			j+1, h.atts[j].scert, st, jcca, jccert, jins))
+	}
+	if len(notes) == 0 {
+		return ""
+	}
+	_ = ins
+	return fmt.Sprintf(" [this attempt: client CA %s, client certificate %s, insecure=%v; %s - the decision must be that of this attempt made alone]",
+		cca, ccert, ins, strings.Join(notes, "; "))
 }
 
 func b2i(b bool) int {
@@ -641,6 +886,62 @@ func (tlshistComp) Gen(r *Rand, tier string, emit func(string)) {
 			}
 		}
 	}
+	// the SAME server endpoint connected to repeatedly by one process while the configuration changes between the
+	// attempts: authentication must be decided afresh for every connection from the configuration in force for THAT
+	// connection - nothing remembered from an earlier one (TLS session tickets / caches, remembered peers, "already
+	// verified" sets).  The servers of a history keep their listener (and ticket keys) across its attempts; `seq`
+	// changes the one configuration object in place (CA file replaced on disk), `seqn` uses an object per attempt.
+	same := []string{"tcp+tls,localhost", "tcp+tls,127.0.0.1", "tcp,localhost", "pipe,server.test"}
+	if tier == "thorough" {
+		same = append(same, "wss,localhost", "wss,127.0.0.1", "tcp,127.0.0.1")
+	} else {
+		same = append(same, "wss,localhost")
+	}
+	for _, ep := range same {
+		for _, mode := range []string{"seq", "seqn"} {
+			for _, v := range []string{"", "/v12"} {
+				if v != "" && mode == "seqn" && tier != "thorough" {
+					continue
+				}
+				at := func(scert string, vari string) string {
+					t := ep + "," + scert
+					if vv := strings.Trim(vari+v, "/"); vv != "" {
+						t += "," + vv
+					}
+					return t
+				}
+				// trusted CA, then a foreign one / none (system store), then the trusted one again - and the reverse
+				emit(mode + " 0 A none 0 A " + at("good", "") + " " + at("good", "cB") + " " + at("good", ""))
+				emit(mode + " 0 A none 0 A " + at("good", "") + " " + at("good", "c-"))
+				emit(mode + " 0 B none 0 A " + at("good", "") + " " + at("good", "cA") + " " + at("good", ""))
+				emit(mode + " 0 A none 0 A " + at("untrusted", "cB") + " " + at("untrusted", "") + " " + at("sys", "c-") + " " + at("sys", ""))
+				// client certificate, then none / foreign / expired, towards a server that requires one - and the reverse
+				emit(mode + " 0 A good 1 A " + at("good", "") + " " + at("good", "knone") + " " + at("good", ""))
+				emit(mode + " 0 A good 1 A " + at("good", "") + " " + at("good", "kforeign") + " " + at("good", "kexp1m"))
+				emit(mode + " 0 A none 1 A " + at("good", "") + " " + at("good", "kgood") + " " + at("good", ""))
+				emit(mode + " 0 A good 1 B " + at("good", "") + " " + at("good", "kforeign") + " " + at("good", ""))
+				// verification off, then on - and on, off, on
+				emit(mode + " 1 A none 0 A " + at("untrusted", "") + " " + at("untrusted", "i0") + " " + at("wronghost", "") + " " + at("wronghost", "i0"))
+				emit(mode + " 0 A none 0 A " + at("good", "") + " " + at("untrusted", "i1") + " " + at("untrusted", ""))
+				// both at once: another CA and no certificate
+				emit(mode + " 0 A good 1 A " + at("good", "") + " " + at("good", "cB/knone") + " " + at("good", "knone") + " " + at("good", "cB"))
+				if mode == "seqn" {
+					continue
+				}
+				// the server is replaced on the same port: same certificate (new ticket keys), foreign CA, other host's
+				// certificate, expired - and back; with a changed client configuration on top
+				emit(mode + " 0 A none 0 A " + at("good", "") + " " + at("good", "r") + " " + at("untrusted", "r") + " " + at("good", "r"))
+				emit(mode + " 0 A none 0 A " + at("good", "") + " " + at("wronghost", "r") + " " + at("exp1m", "r") + " " + at("good", "r/cB"))
+				emit(mode + " 0 A good 1 A " + at("good", "") + " " + at("good", "r/knone") + " " + at("good", "") + " " + at("untrusted", "r"))
+			}
+		}
+	}
+	// stdio+tls (a server per connection) towards a server that requires a client certificate, between attempts to a
+	// TLS socket: certificate, none, certificate
+	for _, mode := range []string{"seq", "seqn"} {
+		emit(mode + " 0 A good 1 A stdin+tls,-,good stdin+tls,-,good,knone tcp+tls,localhost,good,knone stdin+tls,-,good")
+		emit(mode + " 0 A good 1 A tcp+tls,localhost,good stdin+tls,-,good,knone tcp+tls,localhost,good,knone tcp+tls,localhost,good")
+	}
 	nrand := 150
 	if tier == "thorough" {
 		nrand = 1500
@@ -651,9 +952,23 @@ func (tlshistComp) Gen(r *Rand, tier string, emit func(string)) {
 		if r.Intn(3) == 0 {
 			opts = fmt.Sprintf("%d %s %s %d %s", r.Intn(2), r.Pick([]string{"A", "A", "-", "B"}), r.Pick(c05CCerts), r.Intn(2), r.Pick([]string{"A", "A", "-", "B"}))
 		}
-		toks := []string{r.Pick([]string{"seq", "seq", "list"}), opts}
+		mode := r.Pick([]string{"seq", "seq", "list", "seqn"})
+		toks := []string{mode, opts}
 		for j := 0; j < n; j++ {
-			toks = append(toks, r.Pick(set))
+			a := r.Pick(set)
+			if mode != "list" && r.Intn(3) == 0 {
+				// the configuration in force changes for this attempt / the server is replaced
+				var vs []string
+				for _, v := range []string{"c" + r.Pick(c05CaTokens), "k" + r.Pick(c05CCerts), fmt.Sprintf("i%d", r.Intn(2)), "r", "v12"} {
+					if r.Intn(3) == 0 {
+						vs = append(vs, v)
+					}
+				}
+				if len(vs) > 0 {
+					a += "," + strings.Join(vs, "/")
+				}
+			}
+			toks = append(toks, a)
 		}
 		emit(strings.Join(toks, " "))
 	}
